@@ -358,9 +358,11 @@ def c20_variants(tier, seed, s):
         [dump, "", "%url", ""],
         [dump, "%subtype"],
         [dump, "--", "%url", "%mimetype;%subtype", "$(id)", "`id`"],
+        [dump, "%%url", "%%%subtype", "%%mimetype", "%url%", "%%"],
+        [dump, "%%url"],
     ]
     if tier == "thorough":
-        atoms = ["%url", "%mimetype", "%supertype", "%subtype", "--url=%url", "%url ", "", "-", "--", "x", "%", "%%url", "%urls", "a b", "'", "\"", "$HOME", "*"]
+        atoms = ["%url", "%mimetype", "%supertype", "%subtype", "--url=%url", "%url ", "", "-", "--", "x", "%", "%%url", "%%%supertype", "%urls", "a b", "'", "\"", "$HOME", "*"]
         for i in range(48):
             hooks.append([dump] + [rnd.choice(atoms) for _ in range(rnd.randint(0, 6))])
     out = []
@@ -374,7 +376,7 @@ def c20_variants(tier, seed, s):
 
 PROPS["C20"] = simple(
     "ui", "TestVerifC20", "exploration",
-    "one process per hook configuration (12 quick / 60 thorough): placeholders first, last, repeated, absent, embedded in longer arguments ('--url=%url', '%url%url', ' %url', '%URL'), "
+    "one process per hook configuration (14 quick / 62 thorough): placeholders first, last, repeated, absent, embedded in longer arguments ('--url=%url', '%url%url', ' %url', '%URL'), "
     "empty arguments, a 1-element hook, shell-looking arguments, and programs literally named %url / %mimetype found through PATH; worlds whose posts, attachments, bios, profile pictures "
     "and banners carry 30 kinds of hostile links (spaces, quotes, backslashes, leading dashes, $(), backticks, ';', '|&<>', glob characters, text that is itself a placeholder, %0A, 4 KB, "
     "non-http schemes, relative and unparsable references) with valid, missing, malformed and hostile media types; on every highlighted item o / p / b / 1..5+Enter are pressed (40 quick / "
